@@ -4,11 +4,16 @@
 //! Case lines (see `lean/HumphreyModel/Driver/C10.lean` for the field formats):
 //!   enc fin rsv opcode mask length key payload | dec chunks | rt fin rsv opcode mask key payload sizes
 //!   trunc fin rsv opcode mask key payload n sizes | opc n | msg new|binary payload
+//!   msg rx.<opcode>.<sizes> payload: a message RECEIVED by `WebsocketStream::recv` from client frames (first frame
+//!   with the given data opcode, continuation frames after it, fragment sizes `-` or joined by `+`, the rest is the
+//!   last fragment) -> `<T|B><1|0>:<hex of to_frame()>` (`is_text()`, `text().is_some()`, the re-encoded message)
 use crate::common::*;
+use humphrey::stream::{MockIo, Stream};
 use humphrey_ws::error::WebsocketError;
 use humphrey_ws::message::Message;
+use humphrey_ws::stream::WebsocketStream;
 use humphrey_ws::verif::{frame_from_parts, frame_from_stream, frame_parts, opcode_from_u8};
-use std::io::Read;
+use std::io::{Read, Write};
 
 /// Claimed payload lengths above this are never generated: the decoder executes
 /// `vec![0; length as usize]` before reading, and a huge claim aborts the process (C03's subject).
@@ -54,6 +59,89 @@ impl Read for Script {
         }
         Ok(n)
     }
+}
+
+/// A socket for `WebsocketStream`: reads come from a `Script`, writes are accepted and forgotten.
+struct Wire(Script);
+
+impl Read for Wire {
+    fn read(&mut self, buf: &mut [u8]) -> std::io::Result<usize> {
+        self.0.read(buf)
+    }
+}
+
+impl Write for Wire {
+    fn write(&mut self, buf: &[u8]) -> std::io::Result<usize> {
+        Ok(buf.len())
+    }
+    fn flush(&mut self) -> std::io::Result<()> {
+        Ok(())
+    }
+}
+
+impl MockIo for Wire {
+    fn peer_addr(&self) -> Result<std::net::SocketAddr, std::io::Error> {
+        Ok("127.0.0.1:40000".parse().unwrap())
+    }
+    fn shutdown(&self) -> std::io::Result<()> {
+        Ok(())
+    }
+    fn set_timeout(&self, _timeout: Option<std::time::Duration>) -> std::io::Result<()> {
+        Ok(())
+    }
+    fn set_nonblocking(&self, _nonblocking: bool) -> std::io::Result<()> {
+        Ok(())
+    }
+}
+
+/// RFC 6455 section 5.2 octets of a masked client frame (written here, not the crate's encoder).
+fn client_frame(fin: bool, opcode: u8, payload: &[u8]) -> Vec<u8> {
+    const KEY: [u8; 4] = [0x37, 0xfa, 0x21, 0x3d];
+    let mut v = vec![(if fin { 0x80 } else { 0 }) | opcode];
+    let l = payload.len();
+    if l <= 125 {
+        v.push(0x80 | l as u8);
+    } else if l <= 65535 {
+        v.push(0x80 | 126);
+        v.extend_from_slice(&(l as u16).to_be_bytes());
+    } else {
+        v.push(0x80 | 127);
+        v.extend_from_slice(&(l as u64).to_be_bytes());
+    }
+    v.extend_from_slice(&KEY);
+    v.extend(payload.iter().enumerate().map(|(i, b)| b ^ KEY[i % 4]));
+    v
+}
+
+/// `rx.<opcode>.<sizes>`: the message the server receives from these client frames, then `to_frame()` of that object.
+fn received_to_frame(kind: &str, payload: Vec<u8>) -> Option<String> {
+    let parts: Vec<&str> = kind.split('.').collect();
+    if parts.len() != 3 || parts[0] != "rx" {
+        return None;
+    }
+    let opcode: u8 = parts[1].parse().ok()?;
+    if opcode != 1 && opcode != 2 {
+        return None;
+    }
+    let sizes: Vec<usize> = if parts[2] == "-" { vec![] } else { parts[2].split('+').map(|x| x.parse().ok()).collect::<Option<Vec<_>>>()? };
+    let mut wire = Vec::new();
+    let mut rest: &[u8] = &payload;
+    for (i, n) in sizes.iter().enumerate() {
+        let k = (*n).min(rest.len());
+        wire.extend(client_frame(false, if i == 0 { opcode } else { 0 }, &rest[..k]));
+        rest = &rest[k..];
+    }
+    wire.extend(client_frame(true, if sizes.is_empty() { opcode } else { 0 }, rest));
+    Some(match guarded(move || {
+        let mut ws = WebsocketStream::new(Stream::Mock(Box::new(Wire(Script::new(vec![wire])))));
+        match ws.recv() {
+            Ok(m) => format!("{}{}:{}", if m.is_text() { "T" } else { "B" }, if m.text().is_some() { 1 } else { 0 }, hex(&m.to_frame())),
+            Err(e) => format!("ERR:{:?}", e),
+        }
+    }) {
+        Ok(t) => t,
+        Err(_) => "PANIC".into(),
+    })
 }
 
 #[derive(Clone)]
@@ -215,6 +303,12 @@ pub fn exec(f: &[String]) -> Option<String> {
         ("msg", 3) => {
             let p = unhex(&f[2]);
             let kind = f[1].clone();
+            if kind.starts_with("rx.") {
+                return received_to_frame(&kind, p);
+            }
+            if kind != "new" && kind != "binary" {
+                return None;
+            }
             Some(match guarded(move || {
                 if kind == "new" { Message::new(p).to_frame() } else { Message::new_binary(p).to_frame() }
             }) {
@@ -564,6 +658,74 @@ pub fn gen(out: &mut Out, thorough: bool, seed: u64) {
             for kind in ["new", "binary"] {
                 let r = emit(out, vec!["msg".into(), kind.into(), hex(p)], true);
                 out.count(&format!("msg:{}:first-byte={}", kind, &r[..2.min(r.len())]));
+            }
+        }
+    }
+
+    // --- Message::to_frame of RECEIVED messages (`rx` kinds): a message whose text flag is set although the payload is not
+    // UTF-8 cannot be built with the constructors, only received. Payload lengths: the boundaries and a sweep around
+    // powers of two; payloads: ASCII, whole multi-byte characters, the same cut at the end, arbitrary bytes, Latin-1;
+    // received as text and as binary, in one frame and in fragments (cut after the first byte = inside a character for
+    // the multi-byte payloads, in the middle, into three).
+    let mut rx_lens: Vec<usize> = msg_lens.clone();
+    rx_lens.extend_from_slice(&[4, 6, 7, 10, 100, 255, 256, 257, 1000, 1024]);
+    if thorough {
+        rx_lens.extend_from_slice(&[4095, 4097, 8192, 16384, 32768, 100_000, 131_072, 262_144, 1 << 20]);
+    }
+    rx_lens.sort_unstable();
+    rx_lens.dedup();
+    let unit = "é€😀x中ß";
+    for &len in &rx_lens {
+        if !thorough && len > 65535 && len != 65536 {
+            continue;
+        }
+        let ascii: Vec<u8> = (0..len).map(|i| b'a' + (i % 26) as u8).collect();
+        // whole characters only: filled up with `x`
+        let mut whole: Vec<u8> = Vec::new();
+        for c in unit.chars().cycle() {
+            if whole.len() + c.len_utf8() > len {
+                break;
+            }
+            let mut b = [0u8; 4];
+            whole.extend_from_slice(c.encode_utf8(&mut b).as_bytes());
+        }
+        whole.resize(len, b'x');
+        // the same stream of characters cut at `len` wherever that falls
+        let cut: Vec<u8> = unit.bytes().cycle().take(len).collect();
+        let bin = rng.bytes(len);
+        let mut latin1 = ascii.clone();
+        if len > 0 {
+            latin1[len / 2] = 0xe9;
+        }
+        let mut tail = whole.clone();
+        if len > 0 {
+            tail[len - 1] = 0xc3;
+        }
+        for (pi, p) in [&ascii, &whole, &cut, &bin, &latin1, &tail].into_iter().enumerate() {
+            if len == 0 && pi > 0 {
+                continue;
+            }
+            let mut cuts: Vec<String> = vec!["-".into()];
+            if len >= 2 {
+                cuts.push("1".into());
+                cuts.push((len / 2).to_string());
+                cuts.push((len - 1).to_string());
+            }
+            if len >= 3 {
+                cuts.push(format!("1+{}", (len - 1) / 2));
+                cuts.push("1+1+0".into());
+            }
+            if len > 300 {
+                // the large ones: whole, cut in the middle, and one more
+                cuts.truncate(3);
+            }
+            cuts.dedup();
+            for c in &cuts {
+                for opcode in [1u8, 2] {
+                    let r = emit(out, vec!["msg".into(), format!("rx.{}.{}", opcode, c), hex(p)], true);
+                    let utf8_ok = std::str::from_utf8(p).is_ok();
+                    out.count(&format!("msg:rx:opcode={}:{}:first-byte={}", opcode, if utf8_ok { "utf8" } else { "not-utf8" }, r.split(':').nth(1).map(|h| &h[..2.min(h.len())]).unwrap_or("?")));
+                }
             }
         }
     }
